@@ -60,67 +60,40 @@ theorem eval_fresh_env (fuel : Nat) (node : Node N) (input : Option (Val N)) :
 
 /-! ### regenerated facts -/
 
-/-- Every write through a field, element or pointer in the evaluator packages, with why it
-    cannot carry state from one evaluation to the next. -/
-def allowedWrites : List (String × String × String) := [
-  -- (file, receiver type of the enclosing method, what is written).  The third component names
-  -- the variable the store is rooted at by kind, not by name: `local` = a value made in this
-  -- function (make / new / literal / call result), `recv:T` = the method's receiver,
-  -- `param:τ` = a parameter of type τ, `global:x` = a package-level variable.
-  -- sequences, result containers, argument vectors: allocated in the same call
-  ("eval.go", "", "local.values"),
-  ("eval.go", "", "local.keepSingletons"),                 -- the sequence returned by evalPathStep (fresh)
-  ("eval.go", "", "local[]"),
-  ("eval.go", "", "local.items"),
-  ("eval.go", "sequence", "recv:sequence.values"),
+/-- Every write through a field, element or pointer in the evaluator packages is accounted for by the *kind* of
+    what it writes to (the extractor classifies the variable a store is rooted at: `local` = a value made in the
+    writing function, `param:τ` = a parameter of type τ, `recv:T` = the method's receiver, `global:` = a
+    package-level variable; a receiver's field and a package-level variable are given by their declared TYPES),
+    with why it cannot carry state from one evaluation to the next.  Files, function names, field names and
+    variable names do not occur: moving or renaming code changes nothing here, writing to something new does. -/
+def allowedWriteKinds : List String := [
+  -- argument vectors and result containers handed to a helper by the call that made them
+  "param:[]reflect.Value[]", "param:...reflect.Value[]", "param:map[string]interface{}[]",
+  "param:map[uintptr]bool[]",                            -- the ownership set of one transform call
+  -- a sequence is made per path step, a frame per evaluation / block / call
+  "recv:sequence.([]interface{})",
+  "recv:environment.(map[string]reflect.Value)", "recv:environment.(map[string]reflect.Value)[]",
   -- name/context setters: applied to the per-call copy (fact_call_copies_builtin)
-  ("callable.go", "callableName", "recv:callableName.name"),
-  ("callable.go", "goCallable", "recv:goCallable.context"),
-  -- construction of callables at registration time
-  ("callable.go", "", "local.isOpt"),
-  ("callable.go", "", "local.optType"),
-  ("callable.go", "", "local[]"),
-  ("callable.go", "", "local.isVar"),
-  ("callable.go", "", "local.varTypes"),
-  -- argument vectors built per call
-  ("callable.go", "goCallable", "local[]"),
-  ("callable.go", "goCallable", "param:[]reflect.Value[]"),
-  ("callable.go", "lambdaCallable", "param:[]reflect.Value[]"),
-  ("callable.go", "partialCallable", "local[]"),
-  ("callable.go", "regexCallable", "local[]"),
-  ("callable.go", "regexCallable", "local[][]"),
-  ("callable.go", "", "param:map[uintptr]bool[]"),         -- the ownership set of one transform call
-  -- environment frames: every evaluation, block and call makes its own
-  ("env.go", "environment", "recv:environment.symbols"),
-  ("env.go", "environment", "recv:environment.symbols[]"),
-  -- registries: written by Compile / Register*, never by Eval
-  ("jsonata.go", "Expr", "recv:Expr.registry"),
-  ("jsonata.go", "Expr", "recv:Expr.registry[]"),
-  ("jsonata.go", "", "local[]"),
-  ("jsonata.go", "", "global:globalRegistry[]"),
-  -- library functions: fresh result containers, the variadic argument slice of the call
-  ("jlib/array.go", "", "local[]"),
-  ("jlib/array.go", "", "param:...reflect.Value[]"),
-  ("jlib/object.go", "", "local[]"),
-  ("jlib/object.go", "", "param:map[string]interface{}[]"),  -- mergeMap's destination, made by its caller
-  ("jlib/string.go", "", "local[]"),
-  ("jlib/string.go", "", "param:*jxpath.DecimalFormat.Infinity"),   -- the DecimalFormat made by this $formatNumber call
-  ("jlib/string.go", "", "param:*jxpath.DecimalFormat.NaN"),
-  ("jlib/string.go", "", "param:*jxpath.DecimalFormat.Percent"),
-  ("jlib/string.go", "", "param:*jxpath.DecimalFormat.PerMille"),
-  ("jlib/string.go", "", "param:*jxpath.DecimalFormat.DecimalSeparator"),
-  ("jlib/string.go", "", "param:*jxpath.DecimalFormat.GroupSeparator"),
-  ("jlib/string.go", "", "param:*jxpath.DecimalFormat.ExponentSeparator"),
-  ("jlib/string.go", "", "param:*jxpath.DecimalFormat.MinusSign"),
-  ("jlib/string.go", "", "param:*jxpath.DecimalFormat.ZeroDigit"),
-  ("jlib/string.go", "", "param:*jxpath.DecimalFormat.OptionalDigit"),
-  ("jlib/string.go", "", "param:*jxpath.DecimalFormat.PatternSeparator"),
-  ("jlib/string.go", "", "local.RawQuery")]
+  "recv:callableName.(string)", "recv:goCallable.(reflect.Value)",
+  -- registries: written by Compile / Register*, never by Eval (fact_new_env_per_eval: Eval's own trace has no
+  -- store through *Expr or into a package-level variable)
+  "recv:Expr.(map[string]reflect.Value)", "recv:Expr.(map[string]reflect.Value)[]",
+  "global:(map[string]reflect.Value)[]"]
+
+def harmlessWrite (what : String) : Bool :=
+  "local".toList.isPrefixOf what.toList ||               -- a value made in the writing function
+  "param:*jxpath.DecimalFormat.".toList.isPrefixOf what.toList ||   -- the DecimalFormat made by this $formatNumber call
+  allowedWriteKinds.contains what
 
 /-- **Every write site of the evaluator is accounted for**: none writes to the parsed tree,
     to a shared built-in, or to anything else that outlives the evaluation. -/
 theorem fact_writes_accounted :
-    Generated.writeSites.all (fun w => allowedWrites.contains w) = true := by decide
+    Generated.writeSites.all (fun w => harmlessWrite w.2.2) = true := by decide
+
+/-- a cache on the expression, a package-level table or a field of a shared callable would not be accepted -/
+example : harmlessWrite "recv:Expr.(*environment)" = false ∧ harmlessWrite "global:(map[string]*regexp.Regexp)[]" = false ∧
+    harmlessWrite "recv:goCallable.([4]reflect.Value)[]" = false ∧ harmlessWrite "param:*jparse.FunctionCallNode.Args" = false := by
+  decide
 
 /-- `pat` occurs in `l` as a contiguous block -/
 def hasInfix (pat : List Char) : List Char → Bool
@@ -155,10 +128,14 @@ theorem fact_chain_builds_call :
     indexOfEvent "copy:*" ev < indexOfEvent "call:SetContext" ev := by
   decide
 
-/-- each evaluation assembles a new environment on top of the base environment -/
+/-- an evaluation stores nothing through the expression and nothing into a package-level variable: the traces
+    of Eval and EvalBytes, inlined through the package-local helpers down to the evaluator's dispatcher, contain
+    stores into the frames of the environment they build (so they do build one) and no store rooted at `*Expr`
+    or at a global — stated without the names of the helpers -/
 theorem fact_new_env_per_eval :
-    Generated.newEnvParents = ["baseEnv"] ∧
-    Generated.exprEvalEvents.contains "call:newEnvironment" = true := by decide
+    (Generated.exprEvalEvents ++ Generated.exprEvalBytesEvents).all
+      (fun e => e != "write:recv:Expr" && e != "write:global") = true ∧
+    Generated.exprEvalEvents.contains "write:recv:environment" = true := by decide
 
 /-! ### non-vacuity -/
 
